@@ -595,7 +595,47 @@ macro_rules! span_harness {
     };
 }
 span_harness!(c17_span_statement, false);
-span_harness!(c17_span_break_statement, true);
+
+/// `.break` marks the statement that comes next: after K statements a lone Breakpoint token records address K
+/// (statement index), flagged predefined, and adds no word.  (One token: two tokens through parse()'s loop
+/// with kinds read back from the vector did not finish in 20 min.)
+macro_rules! break_directive {
+    ($name:ident, $k:expr) => {
+        #[kani::proof]
+        #[kani::unwind(6)]
+        #[kani::stub(alloc::fmt::format, stubs::fmt_format)]
+        #[kani::stub(crate::symbol::with_symbol_table, stubs::with_symbol_table)]
+        #[kani::stub(crate::error::parse_generic_unexpected, generic_unexpected_contract)]
+        #[kani::stub(crate::error::parse_lit_range, lit_range_contract)]
+        #[kani::stub(crate::error::parse_eof, eof_contract)]
+        #[kani::stub(crate::error::parse_duplicate_label, dup_label_contract)]
+        #[kani::stub(AsmParser::parse_instr, AsmParser::parse_instr_any)]
+        #[kani::stub(AsmParser::parse_trap, AsmParser::parse_trap_any)]
+        fn $name() {
+            let mut p = parser_over(vec![Token::breakpoint(span_of(0, 0))], kani::any());
+            let mut i = 0;
+            while i < $k {
+                p.air.add_stmt(AirStmt::Return, Span::dummy());
+                i += 1;
+            }
+            match p.parse() {
+                Ok(air) => {
+                    assert!(air.len() == $k, ".break produced a word of its own");
+                    assert!(air.breakpoints.len() == 1 && crate::debugger::verif_h::bp_addr_at(&air.breakpoints, 0) == $k as u16
+                        && crate::debugger::verif_h::bp_predefined_at(&air.breakpoints, 0), ".break does not mark the next statement's index");
+                    kani::cover!(true);
+                    core::mem::forget(air);
+                }
+                Err(e) => {
+                    core::mem::forget(e);
+                    assert!(false, ".break at the end of the source rejected");
+                }
+            }
+        }
+    };
+}
+break_directive!(c11_break_directive_0, 0usize);
+break_directive!(c11_break_directive_2, 2usize);
 
 /// expect_reg / expect record where the consumed operand ends (what parse() builds statement spans from)
 parse_attrs! { fn c17_tok_end_recorded() {
